@@ -224,7 +224,8 @@ def _job(job):
     data = make_content(r)
     L = len(data)
     t0 = time.time()
-    system = S.WrapperSystem(allowed=allowed)
+    # allowed_formats is passed by keyword or as the third positional argument
+    system = S.WrapperSystem(allowed=allowed, positional=bool(allowed) and idx % 2 == 0)
     base = [4, 64, 512, 592, 34816, 262144, 8, 510, 32768, 196608, 6, 1024, 65536]
     cuts = sorted(c for c in base[:ncuts + 6] if 0 < c < L)[:64]
     if len(cuts) > ncuts:
@@ -265,6 +266,16 @@ def _job(job):
             if len(probs) < 8:
                 probs.append({'clause': clause, 'detail': detail, 'path': list(path),
                               'decision': decision, 'format': fmt})
+    # the same content handed over as a re-used bytearray / memoryview slices
+    if ncuts >= 6 or idx % 5 == 0:
+        for kind in ('bytearray', 'memoryview'):
+            tv, _tb = S.typed_run('wrapper', data, cuts[:5], kind, allowed)
+            if tv[0] in ('error', 'transparency-broken'):
+                probs.append({'clause': 'g-typed-chunks-raise', 'detail': [kind, tv], 'path': ['typed', kind]})
+                continue
+            for clause, detail in judge(data, allowed, tv[0], tv[1]):
+                probs.append({'clause': clause + ':' + kind + '-chunks', 'detail': detail,
+                              'path': ['typed', kind], 'decision': tv[0], 'format': tv[1]})
     # detect_file_format on the same content (allowed_formats is not a parameter there)
     file_obs = None
     if allowed is None and tmpdir:
@@ -372,6 +383,12 @@ def replay(payload):
     data = unpack(payload['image'])
     allowed = payload['allowed']
     clause = payload['clause']
+    if payload['path'][:1] == ['typed']:
+        tv, _tb = S.typed_run('wrapper', data, [4, 64, 512, 592, 34816], payload['path'][1], allowed)
+        if tv[0] in ('error', 'transparency-broken'):
+            return {'violates': True, 'typed_verdict': repr(tv)}
+        bad = [c for c, _ in judge(data, allowed, tv[0], tv[1])]
+        return {'violates': bool(bad), 'typed_verdict': repr(tv), 'clauses': bad}
     if payload['path'] == ['file']:
         tmpdir = tempfile.mkdtemp(prefix='verif-c03-')
         try:
@@ -392,7 +409,7 @@ def replay(payload):
             # iteration order of a set of objects hashed by id
             out['_ignore_in_divergence_check'] = ['detect_file_format']
         return out
-    system = S.WrapperSystem(allowed=allowed)
+    system = S.WrapperSystem(allowed=allowed, positional=bool(allowed))
     obj, trace = S.replay_path(system, data, payload['path'])
     ds = [t.get('decision') for t in trace if 'decision' in t]
     last = trace[-1] if trace else {}
